@@ -1,24 +1,1039 @@
-//! C05 — not implemented yet (stub so that the registry compiles).
+//! C05 — tap-hold resolves every press to exactly one of tap / hold / timeout, on time.
+//!
+//! Tap, hold and timeout actions are distinct witness keys, so the outcome of every tap-hold press
+//! is read off the OS stream.
+//!   I1  every tap-hold press produces exactly one witness press (never two, never none);
+//!   I2  output presses appear in the order of the input presses: nothing pressed after a tap-hold
+//!       key is output before that key's decision, buffered keys are replayed in order, none lost
+//!       or duplicated; nothing is down at the end;
+//!   I3  the per-tick output equals the tap-hold reference model (DESIGN.md appendix E.2), and, for
+//!       the "no other input" clause, the statement is checked directly on the stream.
 
-use crate::core::{CaseOut, Check, Ctx};
+use super::c04::util::*;
+use crate::core::rng::Rng;
+use crate::core::sim::{code_name, render_hist, Ev, Sim};
+use crate::core::{CaseOut, Check, Ctx, Tier};
+use serde_json::{json, Value};
+use std::collections::VecDeque;
 
 pub struct C05Check;
 pub static C05: C05Check = C05Check;
+
+// ------------------------------------------------------------------ configuration description
+
+#[derive(Clone, Copy, Debug, PartialEq, Eq)]
+pub enum Var {
+    Default,
+    Press,
+    Release,
+    PressTimeout,
+    ReleaseTimeout,
+    ReleaseKeys,
+    ExceptKeys,
+}
+pub const VARS: [Var; 7] = [Var::Default, Var::Press, Var::Release, Var::PressTimeout, Var::ReleaseTimeout, Var::ReleaseKeys, Var::ExceptKeys];
+
+impl Var {
+    fn name(self) -> &'static str {
+        match self {
+            Var::Default => "tap-hold",
+            Var::Press => "tap-hold-press",
+            Var::Release => "tap-hold-release",
+            Var::PressTimeout => "tap-hold-press-timeout",
+            Var::ReleaseTimeout => "tap-hold-release-timeout",
+            Var::ReleaseKeys => "tap-hold-release-keys",
+            Var::ExceptKeys => "tap-hold-except-keys",
+        }
+    }
+    fn has_timeout_action(self) -> bool {
+        matches!(self, Var::PressTimeout | Var::ReleaseTimeout)
+    }
+    /// render with witness keys (tap, hold, timeout) and the listed key
+    fn render(self, tapwin: u16, h: u16, w: [&str; 3], listed: &str) -> String {
+        match self {
+            Var::Default | Var::Press | Var::Release => format!("({} {tapwin} {h} {} {})", self.name(), w[0], w[1]),
+            Var::PressTimeout | Var::ReleaseTimeout => format!("({} {tapwin} {h} {} {} {})", self.name(), w[0], w[1], w[2]),
+            Var::ReleaseKeys | Var::ExceptKeys => format!("({} {tapwin} {h} {} {} ({listed}))", self.name(), w[0], w[1]),
+        }
+    }
+}
+
+/// parameters of the single-tap-hold-key configurations: physical keys a (tap-hold), b (the listed
+/// key of the -keys variants), c
+#[derive(Clone, Copy, Debug)]
+pub struct P {
+    pub var: Var,
+    pub h: u16,
+    pub tapwin: u16,
+    pub concurrent: bool,
+    pub red: u16,
+}
+
+impl P {
+    pub fn render(&self) -> String {
+        let mut opts = vec![];
+        if self.concurrent {
+            opts.push("concurrent-tap-hold yes".to_string());
+        }
+        if self.red != 5 {
+            opts.push(format!("rapid-event-delay {}", self.red));
+        }
+        let mut s = String::new();
+        if !opts.is_empty() {
+            s.push_str(&format!("(defcfg {})\n", opts.join(" ")));
+        }
+        s.push_str("(defsrc a b c)\n");
+        s.push_str(&format!("(deflayer l {} b c)\n", self.var.render(self.tapwin, self.h, ["x", "y", "z"], "b")));
+        s
+    }
+    fn label(&self) -> String {
+        format!("{}:H{}:W{}:c{}:r{}", self.var.name(), self.h, self.tapwin, self.concurrent as u8, self.red)
+    }
+}
+
+// ------------------------------------------------------------------ reference model (appendix E.2)
+
+#[derive(Clone, Copy, Debug, PartialEq)]
+pub enum Dec {
+    Tap,
+    Hold,
+    Timeout,
+}
+struct W {
+    timeout: u16,
+    delay: u16,
+}
+
+pub struct Model {
+    p: P,
+    q: VecDeque<(bool, usize, u16)>,
+    w: Option<W>,
+    pause: u16,
+    st: Vec<(usize, u16)>,
+    diff: OsDiff,
+    lpt_coord: usize,
+    lpt_t: u16,
+    codes: [u16; 5], // X Y Z B C
+    pub decisions: Vec<Dec>,
+    pub quick_repress: u64,
+}
+
+impl Model {
+    pub fn new(p: P) -> Self {
+        Model {
+            p,
+            q: VecDeque::new(),
+            w: None,
+            pause: 0,
+            st: vec![],
+            diff: OsDiff::default(),
+            lpt_coord: 99,
+            lpt_t: 0,
+            codes: [kc("x"), kc("y"), kc("z"), kc("b"), kc("c")],
+            decisions: vec![],
+            quick_repress: 0,
+        }
+    }
+    pub fn push(&mut self, press: bool, k: usize) {
+        self.q.push_back((press, k, 0));
+    }
+    pub fn quiescent(&self) -> bool {
+        self.q.is_empty() && self.w.is_none() && self.pause == 0 && self.st.is_empty() && self.lpt_t == 0 && self.diff.all_up()
+    }
+    fn decide(&self, w: &W) -> Option<Dec> {
+        let presses: Vec<(usize, usize)> = self.q.iter().enumerate().filter(|(_, e)| e.0).map(|(i, e)| (i, e.1)).collect();
+        let released_later = |i: usize, k: usize| self.q.iter().skip(i + 1).any(|e| !e.0 && e.1 == k);
+        let mut skip_timeout = false;
+        match self.p.var {
+            Var::Default => {}
+            Var::Press | Var::PressTimeout => {
+                if !presses.is_empty() {
+                    return Some(Dec::Hold);
+                }
+            }
+            Var::Release | Var::ReleaseTimeout => {
+                for &(i, k) in &presses {
+                    if released_later(i, k) {
+                        return Some(Dec::Hold);
+                    }
+                }
+            }
+            Var::ReleaseKeys => {
+                for &(i, k) in &presses {
+                    if k == 1 {
+                        return Some(Dec::Tap);
+                    }
+                    if released_later(i, k) {
+                        return Some(Dec::Hold);
+                    }
+                }
+            }
+            Var::ExceptKeys => match presses.first() {
+                Some(&(_, k)) => {
+                    if k == 1 {
+                        return Some(Dec::Tap);
+                    }
+                }
+                None => skip_timeout = true,
+            },
+        }
+        if let Some(e) = self.q.iter().find(|e| !e.0 && e.1 == 0) {
+            if w.timeout > w.delay.saturating_sub(e.2) {
+                Some(Dec::Tap)
+            } else {
+                Some(Dec::Timeout)
+            }
+        } else if w.timeout == 0 && !skip_timeout {
+            Some(Dec::Timeout)
+        } else {
+            None
+        }
+    }
+    pub fn tick(&mut self) -> TickOut {
+        for e in self.q.iter_mut() {
+            e.2 = e.2.saturating_add(1);
+        }
+        self.lpt_t = self.lpt_t.saturating_sub(1);
+        if let Some(mut w) = self.w.take() {
+            w.timeout = w.timeout.saturating_sub(1);
+            match self.decide(&w) {
+                None => self.w = Some(w),
+                Some(d) => {
+                    let kcode = match d {
+                        Dec::Tap => self.codes[0],
+                        Dec::Hold => self.codes[1],
+                        Dec::Timeout => {
+                            if self.p.var.has_timeout_action() {
+                                self.codes[2]
+                            } else {
+                                self.codes[1]
+                            }
+                        }
+                    };
+                    if d != Dec::Tap && self.lpt_coord == 0 {
+                        self.lpt_t = 0;
+                    }
+                    if d != Dec::Timeout {
+                        self.pause = self.p.red;
+                    }
+                    self.decisions.push(d);
+                    self.st.push((0, kcode));
+                }
+            }
+        } else if self.pause > 0 {
+            self.pause -= 1;
+        } else if let Some((press, k, since)) = self.q.pop_front() {
+            if press {
+                if self.lpt_coord != k {
+                    self.lpt_t = 0;
+                }
+                if k == 0 {
+                    if self.p.tapwin == 0 || self.lpt_coord != 0 || self.lpt_t == 0 {
+                        self.w = Some(if self.p.concurrent { W { timeout: self.p.h.saturating_sub(since), delay: 0 } } else { W { timeout: self.p.h, delay: since } });
+                        self.lpt_t = self.p.tapwin;
+                    } else {
+                        self.lpt_t = 0;
+                        self.quick_repress += 1;
+                        self.decisions.push(Dec::Tap);
+                        self.st.push((0, self.codes[0]));
+                    }
+                } else {
+                    self.st.push((k, if k == 1 { self.codes[3] } else { self.codes[4] }));
+                }
+                self.lpt_coord = k;
+            } else {
+                self.st.retain(|s| s.0 != k);
+            }
+        }
+        let cur: Vec<u16> = self.st.iter().map(|s| s.1).collect();
+        self.diff.step(&cur)
+    }
+}
+
+// ------------------------------------------------------------------ stream invariants I1 / I2
+
+/// one input event as injected: (ticks completed at injection, press?, source key index)
+type In = (u64, bool, usize);
+/// one OS output: (tick, down?, code)
+type OutEv = (u64, bool, u16);
+
+#[derive(Default, Debug)]
+pub struct OrderStats {
+    pub th_presses: u64,
+    pub buffered_presses: u64,
+    pub max_buffered: u64,
+    pub witnesses: [u64; 3],
+}
+
+/// `class_of(code)` = (source key index, witness kind 0 tap / 1 hold / 2 timeout / 3 plain)
+pub fn order_check(ins: &[In], outs: &[OutEv], is_th: &dyn Fn(usize) -> bool, class_of: &dyn Fn(u16) -> Option<(usize, usize)>, all_up: bool, nkeys: usize) -> Result<OrderStats, (String, String)> {
+    let mut st = OrderStats::default();
+    let in_p: Vec<(u64, usize)> = ins.iter().filter(|e| e.1).map(|e| (e.0, e.2)).collect();
+    let mut out_p: Vec<(u64, usize, usize)> = vec![];
+    for o in outs.iter().filter(|o| o.1) {
+        match class_of(o.2) {
+            Some((src, kind)) => out_p.push((o.0, src, kind)),
+            None => return Err(("C05:unexpected-output-key".into(), format!("key {} pressed at tick {} belongs to no configured action", code_name(o.2), o.0))),
+        }
+    }
+    // counts per source key
+    for k in 0..nkeys {
+        let ni = in_p.iter().filter(|e| e.1 == k).count();
+        let no = out_p.iter().filter(|e| e.1 == k).count();
+        if ni != no {
+            let (sig, what) = if is_th(k) {
+                if no > ni {
+                    ("C05:I1:more-than-one-activation", format!("{ni} presses of tap-hold key #{k} produced {no} tap/hold/timeout activations"))
+                } else {
+                    ("C05:I1:no-activation", format!("{ni} presses of tap-hold key #{k} produced only {no} tap/hold/timeout activations"))
+                }
+            } else if no > ni {
+                ("C05:I2:key-duplicated", format!("{ni} presses of plain key #{k} produced {no} output presses"))
+            } else {
+                ("C05:I2:key-lost", format!("{ni} presses of plain key #{k} produced only {no} output presses"))
+            };
+            return Err((sig.into(), what));
+        }
+    }
+    for (i, (ip, op)) in in_p.iter().zip(out_p.iter()).enumerate() {
+        if ip.1 != op.1 {
+            let sig = if is_th(ip.1) && !is_th(op.1) { "C05:I2:key-output-before-decision" } else { "C05:I2:reordered" };
+            return Err((sig.into(), format!("input press #{i} is key #{} (injected after tick {}), but output press #{i} (tick {}) comes from key #{}", ip.1, ip.0, op.0, op.1)));
+        }
+        if op.0 <= ip.0 {
+            return Err(("C05:output-before-input".into(), format!("press #{i} injected after tick {} but output in tick {}", ip.0, op.0)));
+        }
+        if is_th(ip.1) {
+            st.th_presses += 1;
+            if op.2 < 3 {
+                st.witnesses[op.2] += 1;
+            }
+            let buffered = in_p.iter().filter(|e| e.0 >= ip.0 && e.0 < op.0).count().saturating_sub(1) as u64;
+            let buffered = buffered.min(in_p.len() as u64);
+            st.buffered_presses += buffered;
+            st.max_buffered = st.max_buffered.max(buffered);
+        }
+    }
+    if !all_up {
+        return Err(("C05:stuck-at-end".into(), "a key is still down after every physical key was released and the drain".into()));
+    }
+    Ok(st)
+}
+
+// ------------------------------------------------------------------ single tap-hold key: lockstep with the model
+
+struct Lock {
+    p: P,
+    sim: Sim,
+    model: Model,
+    codes: [u16; 3],
+    ins: Vec<In>,
+    outs: Vec<OutEv>,
+    mtrace: Vec<(u64, TickOut)>,
+    ktrace: Vec<(u64, TickOut)>,
+    t0: u64,
+    max_waiting: u64,
+}
+
+#[derive(Clone, Debug)]
+struct Bad {
+    sig: String,
+    what: String,
+}
+
+impl Lock {
+    fn new(p: P, text: &str) -> Result<Lock, String> {
+        let sim = Sim::new(text)?;
+        Ok(Lock { p, sim, model: Model::new(p), codes: [kc("a"), kc("b"), kc("c")], ins: vec![], outs: vec![], mtrace: vec![], ktrace: vec![], t0: 0, max_waiting: 0 })
+    }
+    fn tick(&mut self) -> Option<Bad> {
+        self.sim.tick();
+        let k = kanata_outs(self.sim.last());
+        let m = self.model.tick();
+        let t = self.sim.now - self.t0;
+        for o in &k {
+            self.outs.push((t, o.0, o.1));
+        }
+        if self.sim.last().iter().any(|o| o.repress) {
+            return Some(Bad { sig: "C05:repress".into(), what: format!("tick {t}: a key that is already down was pressed again: [{}]", fmt_tick(&k)) });
+        }
+        if !k.is_empty() {
+            self.ktrace.push((t, k.clone()));
+        }
+        if !m.is_empty() {
+            self.mtrace.push((t, m.clone()));
+        }
+        if k != m {
+            return Some(Bad { sig: format!("C05:I3:{}", classify(&k, &m)), what: format!("tick {t}: kanata wrote [{}], the tap-hold model expects [{}]", fmt_tick(&k), fmt_tick(&m)) });
+        }
+        None
+    }
+    fn run(&mut self, h: &[Ev]) -> Option<Bad> {
+        self.ins.clear();
+        self.outs.clear();
+        self.mtrace.clear();
+        self.ktrace.clear();
+        self.t0 = self.sim.now;
+        self.model.decisions.clear();
+        for e in h {
+            match e {
+                Ev::T(n) => {
+                    for _ in 0..*n {
+                        if let Some(b) = self.tick() {
+                            return Some(b);
+                        }
+                    }
+                    let l = self.sim.k.layout.b();
+                    self.max_waiting = self.max_waiting.max(l.waiting.is_some() as u64 + l.extra_waiting.len() as u64);
+                }
+                Ev::P(code) | Ev::R(code) => {
+                    let press = matches!(e, Ev::P(_));
+                    let Some(k) = self.codes.iter().position(|x| x == code) else { continue };
+                    if press {
+                        self.sim.press(*code);
+                    } else {
+                        self.sim.release(*code);
+                    }
+                    self.model.push(press, k);
+                    self.ins.push((self.sim.now - self.t0, press, k));
+                    if !self.sim.last().is_empty() {
+                        return Some(Bad { sig: "C05:output-at-event".into(), what: "output while an input event was handled".into() });
+                    }
+                }
+                _ => {}
+            }
+        }
+        // drain until the model is quiescent (bounded)
+        let bound = 3 * (self.p.h as u64 + self.p.tapwin as u64 + self.p.red as u64) + 60 + 8 * h.len() as u64;
+        let mut n = 0;
+        while n < bound {
+            if let Some(b) = self.tick() {
+                return Some(b);
+            }
+            n += 1;
+            if self.model.quiescent() && n >= 2 {
+                break;
+            }
+        }
+        if !self.model.quiescent() {
+            return Some(Bad { sig: "C05:harness:model-not-quiescent".into(), what: "reference model did not settle within the drain bound".into() });
+        }
+        let l = self.sim.k.layout.b();
+        if !l.states.is_empty() || l.waiting.is_some() || !l.queue.is_empty() || !l.extra_waiting.is_empty() {
+            return Some(Bad { sig: "C05:not-settled".into(), what: format!("after the drain: states={:?} waiting={} queue={}", l.states, l.waiting.is_some(), l.queue.len()) });
+        }
+        None
+    }
+    fn invariants(&self) -> Result<OrderStats, (String, String)> {
+        let x = self.model.codes;
+        order_check(
+            &self.ins,
+            &self.outs,
+            &|k| k == 0,
+            &|c| {
+                if c == x[0] {
+                    Some((0, 0))
+                } else if c == x[1] {
+                    Some((0, 1))
+                } else if c == x[2] {
+                    Some((0, 2))
+                } else if c == x[3] {
+                    Some((1, 3))
+                } else if c == x[4] {
+                    Some((2, 3))
+                } else {
+                    None
+                }
+            },
+            self.sim.os.all_up(),
+            3,
+        )
+    }
+    fn reset_trace(&mut self) {
+        clear_trace(&mut self.sim);
+    }
+}
+
+/// Statement, "no other input" clause, read directly off the stream: the history starts with the
+/// tap-hold press, the next event is its release `g` ticks later. Returns (expected witness kind,
+/// expected tick) or None where the convention leaves the tick open.
+fn solo_expectation(p: &P, g: u64) -> Option<(usize, u64)> {
+    let h = p.h as u64;
+    let timeout_kind = if p.var.has_timeout_action() { 2 } else { 1 };
+    // the press is processed in tick 1, so a release injected in the same millisecond is seen in
+    // tick 2 like one injected a millisecond later
+    let ge = g.max(1);
+    if !p.concurrent {
+        if ge < h {
+            Some((0, ge + 1))
+        } else if g == 0 {
+            None
+        } else if p.var == Var::ExceptKeys {
+            // documented: nothing is output until the release
+            Some((timeout_kind, g + 1))
+        } else {
+            Some((timeout_kind, h + 1))
+        }
+    } else {
+        // concurrent-tap-hold: the tick spent in the queue is deducted (appendix A); the tick right
+        // at the shifted boundary is left to the model comparison
+        if ge + 1 < h {
+            Some((0, ge + 1))
+        } else if g >= h && g >= 1 {
+            if p.var == Var::ExceptKeys {
+                Some((timeout_kind, g + 1))
+            } else {
+                Some((timeout_kind, h.max(2)))
+            }
+        } else {
+            None
+        }
+    }
+}
+
+fn boundary_class(d: i64) -> &'static str {
+    match d {
+        i64::MIN..=-2 => "lt-1",
+        -1 => "-1",
+        0 => "0",
+        1 => "+1",
+        _ => "gt+1",
+    }
+}
+
+struct FreshVerdict {
+    bad: Option<Bad>,
+    observed: Vec<String>,
+    expected: Vec<String>,
+}
+
+fn fresh_judge(p: P, text: &str, h: &[Ev]) -> Option<FreshVerdict> {
+    let mut l = Lock::new(p, text).ok()?;
+    let mut bad = l.run(h);
+    if bad.is_none() {
+        if let Err((sig, what)) = l.invariants() {
+            bad = Some(Bad { sig, what });
+        }
+    }
+    if bad.is_none() {
+        if let Some(Err(b)) = solo_check(&l, h) {
+            bad = Some(b);
+        }
+    }
+    if bad.is_some() {
+        for _ in 0..(p.h as u64 + p.red as u64 + 4) {
+            l.sim.tick();
+            let k = kanata_outs(l.sim.last());
+            if !k.is_empty() {
+                l.ktrace.push((l.sim.now - l.t0, k));
+            }
+        }
+    }
+    Some(FreshVerdict { bad, observed: fmt_trace(&l.ktrace), expected: fmt_trace(&l.mtrace) })
+}
+
+/// direct check of the "no other input" clause for histories that begin `d:a t:g u:a`
+/// None = not a 'no other input' schedule; Some(Ok((outcome, release distance from H))) = checked
+fn solo_check(l: &Lock, h: &[Ev]) -> Option<Result<(usize, i64), Bad>> {
+    let a = l.codes[0];
+    let (g, rest) = match h {
+        [Ev::P(x), Ev::T(g), Ev::R(y), rest @ ..] if *x == a && *y == a => (*g as u64, rest),
+        [Ev::P(x), Ev::R(y), rest @ ..] if *x == a && *y == a => (0, rest),
+        _ => return None,
+    };
+    // injection time of the next event, if any
+    let third: Option<u64> = match rest {
+        [] => None,
+        [Ev::T(n), _, ..] => Some(g + *n as u64),
+        _ => Some(g),
+    };
+    let (kind, tick) = solo_expectation(&l.p, g)?;
+    if third.map(|t| t < tick).unwrap_or(false) {
+        // another event is seen before the decision: not a 'no other input' schedule
+        return None;
+    }
+    let x = l.model.codes;
+    let first = l.outs.iter().find(|o| o.1);
+    match first {
+        Some(&(t, _, c)) if c == x[kind] && t == tick => Some(Ok((kind, g as i64 - l.p.h as i64))),
+        Some(&(t, _, c)) => {
+            let got = if c == x[0] { "tap" } else if c == x[1] { "hold" } else if c == x[2] { "timeout" } else { "other" };
+            let want = ["tap", "hold", "timeout"][kind];
+            let sig = if c != x[kind] { format!("C05:solo:{want}-expected-{got}-observed") } else { format!("C05:solo:{want}-at-wrong-tick") };
+            Some(Err(Bad { sig, what: format!("tap-hold key pressed alone and released {g} ticks later (H={}): expected the {want} action in tick {tick}, observed {} in tick {t}", l.p.h, code_name(c)) }))
+        }
+        None => Some(Err(Bad { sig: "C05:solo:no-output".into(), what: format!("tap-hold key pressed alone and released {g} ticks later: no output at all") })),
+    }
+}
+
+fn report(out: &mut CaseOut, p: P, text: &str, h: &[Ev], first: &Bad, part: &str) {
+    let class = |s: &str| s.to_string();
+    let fv = fresh_judge(p, text, h);
+    let fresh_bad = fv.as_ref().and_then(|f| f.bad.clone());
+    match fresh_bad {
+        Some(b0) => {
+            let sig0 = class(&b0.sig);
+            let hm = minimise_hist(h, &mut |c| fresh_judge(p, text, c).and_then(|f| f.bad).map(|b| b.sig == sig0).unwrap_or(false));
+            let f = fresh_judge(p, text, &hm);
+            let (b, obs, exp) = match f {
+                Some(FreshVerdict { bad: Some(b), observed, expected }) => (b, observed, expected),
+                _ => (b0, vec![], vec![]),
+            };
+            out.violate(
+                b.sig.clone(),
+                b.what.clone(),
+                json!({"part": part, "config": text, "params": p.label(), "history": render_hist(&hm), "original_history": render_hist(h), "observed": obs, "expected": exp, "reproduced_on_fresh_instance": true}),
+            );
+        }
+        None => {
+            out.violate(
+                format!("C05:carry-over:{}", first.sig.trim_start_matches("C05:")),
+                format!("{} (only after earlier histories on the same instance)", first.what),
+                json!({"part": part, "config": text, "params": p.label(), "history": render_hist(h), "observed": first.what, "expected": "agreement with the model", "reproduced_on_fresh_instance": false}),
+            );
+        }
+    }
+}
+
+// ------------------------------------------------------------------ two tap-hold keys interleaved (I1 / I2 only)
+
+#[derive(Clone, Debug)]
+struct P2 {
+    v: [Var; 2],
+    h: [u16; 2],
+    tapwin: [u16; 2],
+    concurrent: bool,
+    red: u16,
+}
+
+impl P2 {
+    fn render(&self) -> String {
+        let mut opts = vec![];
+        if self.concurrent {
+            opts.push("concurrent-tap-hold yes".to_string());
+        }
+        if self.red != 5 {
+            opts.push(format!("rapid-event-delay {}", self.red));
+        }
+        let mut s = String::new();
+        if !opts.is_empty() {
+            s.push_str(&format!("(defcfg {})\n", opts.join(" ")));
+        }
+        s.push_str("(defsrc a b c d)\n");
+        s.push_str(&format!(
+            "(deflayer l {} b c {})\n",
+            self.v[0].render(self.tapwin[0], self.h[0], ["x", "y", "z"], "b"),
+            self.v[1].render(self.tapwin[1], self.h[1], ["1", "2", "3"], "c")
+        ));
+        s
+    }
+}
+
+fn gen_p2(rng: &mut Rng) -> P2 {
+    let hs = [1u16, 2, 3, 7, 20, 40];
+    let h0 = *rng.pick(&hs);
+    let h1 = *rng.pick(&hs);
+    P2 {
+        v: [*rng.pick(&VARS), *rng.pick(&VARS)],
+        h: [h0, h1],
+        tapwin: [if rng.coin() { 0 } else { h0 + 1 + rng.below(6) as u16 }, if rng.coin() { 0 } else { h1 + 1 + rng.below(6) as u16 }],
+        concurrent: rng.coin(),
+        red: *rng.pick(&[5u16, 5, 0, 1]),
+    }
+}
+
+struct Run2 {
+    realized: Vec<Ev>,
+    ins: Vec<In>,
+    outs: Vec<OutEv>,
+    repress: Option<u64>,
+    max_queue: u64,
+    max_waiting: u64,
+    unsettled: Option<String>,
+    all_up: bool,
+}
+
+/// run a planned history on a fresh kanata; if the layout queue is about to exceed 27 entries the
+/// driver lets time pass first (the realized history is what the witness records)
+fn run2(text: &str, planned: &[Ev], codes: &[u16; 4], drain: u64) -> Option<Run2> {
+    let mut sim = Sim::new(text).ok()?;
+    let mut r = Run2 { realized: vec![], ins: vec![], outs: vec![], repress: None, max_queue: 0, max_waiting: 0, unsettled: None, all_up: true };
+    let step = |sim: &mut Sim, r: &mut Run2| {
+        sim.tick();
+        for o in sim.last() {
+            if o.repress && r.repress.is_none() {
+                r.repress = Some(sim.now);
+            }
+        }
+        for o in kanata_outs(sim.last()) {
+            r.outs.push((sim.now, o.0, o.1));
+        }
+        let l = sim.k.layout.b();
+        r.max_waiting = r.max_waiting.max(l.waiting.is_some() as u64 + l.extra_waiting.len() as u64);
+    };
+    for e in planned {
+        match e {
+            Ev::T(n) => {
+                for _ in 0..*n {
+                    step(&mut sim, &mut r);
+                }
+                r.realized.push(e.clone());
+            }
+            Ev::P(code) | Ev::R(code) => {
+                let mut extra = 0u32;
+                while sim.k.layout.b().queue.len() >= 27 && extra < 2000 {
+                    step(&mut sim, &mut r);
+                    extra += 1;
+                }
+                if extra > 0 {
+                    r.realized.push(Ev::T(extra));
+                }
+                let Some(k) = codes.iter().position(|x| x == code) else { continue };
+                let press = matches!(e, Ev::P(_));
+                if press {
+                    sim.press(*code);
+                } else {
+                    sim.release(*code);
+                }
+                r.ins.push((sim.now, press, k));
+                r.realized.push(e.clone());
+                r.max_queue = r.max_queue.max(sim.k.layout.b().queue.len() as u64);
+            }
+            _ => {}
+        }
+    }
+    let mut quiet = 0;
+    let mut n = 0;
+    while n < drain {
+        let before = r.outs.len();
+        step(&mut sim, &mut r);
+        n += 1;
+        let l = sim.k.layout.b();
+        let settled = l.states.is_empty() && l.waiting.is_none() && l.queue.is_empty() && l.extra_waiting.is_empty();
+        if r.outs.len() == before && settled {
+            quiet += 1;
+            if quiet >= 10 {
+                break;
+            }
+        } else {
+            quiet = 0;
+        }
+    }
+    let l = sim.k.layout.b();
+    if !(l.states.is_empty() && l.waiting.is_none() && l.queue.is_empty() && l.extra_waiting.is_empty()) {
+        r.unsettled = Some(format!("states={:?} waiting={} queue={} extra_waiting={}", l.states, l.waiting.is_some(), l.queue.len(), l.extra_waiting.len()));
+    }
+    r.all_up = sim.os.all_up();
+    Some(r)
+}
+
+fn judge2(text: &str, planned: &[Ev], codes: &[u16; 4], drain: u64) -> Option<(Run2, Result<OrderStats, (String, String)>)> {
+    let r = run2(text, planned, codes, drain)?;
+    let w0 = [kc("x"), kc("y"), kc("z")];
+    let w1 = [kc("1"), kc("2"), kc("3")];
+    let (b, c) = (kc("b"), kc("c"));
+    let verdict = if let Some(t) = r.repress {
+        Err(("C05:repress".to_string(), format!("tick {t}: a key that is already down was pressed again")))
+    } else if let Some(u) = &r.unsettled {
+        Err(("C05:not-settled".to_string(), format!("after the drain: {u}")))
+    } else {
+        order_check(
+            &r.ins,
+            &r.outs,
+            &|k| k == 0 || k == 3,
+            &|code| {
+                if let Some(i) = w0.iter().position(|x| *x == code) {
+                    Some((0, i))
+                } else if let Some(i) = w1.iter().position(|x| *x == code) {
+                    Some((3, i))
+                } else if code == b {
+                    Some((1, 3))
+                } else if code == c {
+                    Some((2, 3))
+                } else {
+                    None
+                }
+            },
+            r.all_up,
+            4,
+        )
+    };
+    Some((r, verdict))
+}
+
+fn gen_hist2(rng: &mut Rng, p: &P2, codes: &[u16; 4], n_events: usize) -> Vec<Ev> {
+    let mut gaps: Vec<u32> = vec![0, 0, 1, 1, 2, 5];
+    for h in p.h {
+        let h = h as u32;
+        gaps.extend_from_slice(&[h.saturating_sub(1), h, h + 1]);
+    }
+    for w in p.tapwin {
+        if w > 0 {
+            gaps.push(w as u32);
+        }
+    }
+    crate::gen::hist::consistent(rng, codes, n_events, &gaps, false)
+}
+
+// ------------------------------------------------------------------ the check
+
+fn param_sets(tier: Tier) -> Vec<P> {
+    let hs: &[u16] = tier.sel(&[3, 40], &[1, 3, 40]);
+    let mut v = vec![];
+    for var in VARS {
+        for &h in hs {
+            for tapwin in [0, h + 1] {
+                for concurrent in [false, true] {
+                    for red in [5u16, 0] {
+                        v.push(P { var, h, tapwin, concurrent, red });
+                    }
+                }
+            }
+        }
+    }
+    v
+}
+fn exh_n(tier: Tier, h: u16) -> usize {
+    match tier {
+        Tier::Quick => {
+            if h <= 3 {
+                5
+            } else {
+                4
+            }
+        }
+        Tier::Thorough => {
+            if h <= 3 {
+                6
+            } else {
+                5
+            }
+        }
+    }
+}
+fn gapvals(h: u16) -> Vec<u32> {
+    let h = h as u32;
+    let mut g = vec![0, 1, h.saturating_sub(1), h, h + 1];
+    g.sort();
+    g.dedup();
+    g
+}
+fn n_exh_cases(tier: Tier) -> u64 {
+    param_sets(tier).len() as u64 * 9
+}
+fn n_random(tier: Tier) -> u64 {
+    tier.sel(3_000, 60_000)
+}
+
+impl C05Check {
+    fn run_exhaustive(&self, ctx: &Ctx, idx: u64, out: &mut CaseOut) {
+        let ps = param_sets(ctx.tier);
+        let p = ps[(idx / 9) as usize];
+        let p0 = ((idx % 9) / 3) as usize;
+        let p1 = (idx % 3) as usize;
+        let text = p.render();
+        let n = exh_n(ctx.tier, p.h);
+        let gv = gapvals(p.h);
+        let mut lock = match Lock::new(p, &text) {
+            Ok(l) => l,
+            Err(e) => {
+                out.violate("C05:config-rejected", format!("tap-hold configuration rejected: {}", e.lines().next().unwrap_or("")), json!({"config": text, "error": e, "history": "", "observed": "parse error", "expected": "accepted"}));
+                return;
+            }
+        };
+        let codes = lock.codes;
+        let tail = p.h as u32 + 2;
+        let mut bads: Vec<(Vec<Ev>, Bad)> = vec![];
+        let vname = p.var.name();
+        for len in 2..=n {
+            for_each_schedule(3, gv.len(), len, &[p0, p1], |keys, gaps| {
+                let h = schedule_to_hist(&codes, keys, gaps, &gv, tail, 1);
+                let mut bad = lock.run(&h);
+                let mut stats = None;
+                if bad.is_none() {
+                    match lock.invariants() {
+                        Ok(s) => stats = Some(s),
+                        Err((sig, what)) => bad = Some(Bad { sig, what }),
+                    }
+                }
+                if bad.is_none() {
+                    match solo_check(&lock, &h) {
+                        Some(Err(b)) => bad = Some(b),
+                        Some(Ok((kind, d))) => {
+                            // evidence: solo decisions by variant x outcome x distance from the boundary
+                            out.inc("solo_statement_checks");
+                            out.inc(&format!("solo:{vname}:{}:{}", ["tap", "hold", "timeout-action"][kind], boundary_class(d)));
+                        }
+                        None => {}
+                    }
+                }
+                out.inc("schedules");
+                out.inc("schedules_exhaustive");
+                out.count("decisions_compared_with_model", lock.model.decisions.len() as u64);
+                if let Some(s) = stats {
+                    out.count("tap_hold_presses", s.th_presses);
+                    out.count("buffered_key_presses", s.buffered_presses);
+                    out.max("buffered_behind_one_decision", s.max_buffered);
+                    out.count("outcome_tap", s.witnesses[0]);
+                    out.count("outcome_hold", s.witnesses[1]);
+                    out.count("outcome_timeout_action", s.witnesses[2]);
+                }
+                if gaps.iter().all(|g| *g == 0) {
+                    let ks: String = keys.iter().map(|k| char::from(b'a' + *k as u8)).collect();
+                    out.tag(format!("E:{}:{ks}", p.label()));
+                }
+                if let Some(b) = bad {
+                    bads.push((h, b));
+                    out.max("waiting_depth", lock.max_waiting);
+                    out.count("quick_repress_taps", lock.model.quick_repress);
+                    match Lock::new(p, &text) {
+                        Ok(l) => lock = l,
+                        Err(_) => return false,
+                    }
+                    return bads.len() < 3;
+                }
+                lock.reset_trace();
+                true
+            });
+            if bads.len() >= 3 {
+                break;
+            }
+        }
+        out.max("waiting_depth", lock.max_waiting);
+        out.count("quick_repress_taps", lock.model.quick_repress);
+        for (h, b) in bads.iter().take(3) {
+            report(out, p, &text, h, b, "exhaustive");
+        }
+        out.inc("param_sets_x_prefix");
+        if p0 == 0 && p1 == 1 && (idx / 9) % 16 == 3 {
+            out.sample = Some(json!({"part": "exhaustive", "config": text, "params": p.label(), "first_two_keys": [p0, p1], "max_events": n, "gaps": gv,
+                "example_history": render_hist(&schedule_to_hist(&codes, &[0, 1, 1, 0], &[0, 1, 2, 1], &gv, tail, 1))}));
+        }
+    }
+
+    fn random_case(&self, ctx: &Ctx, idx: u64) -> (P2, Vec<Vec<Ev>>) {
+        let mut rng = Rng::for_case(ctx.seed, "C05", "random", idx);
+        let p = gen_p2(&mut rng);
+        let codes = [kc("a"), kc("b"), kc("c"), kc("d")];
+        let mut hs = vec![];
+        for _ in 0..4 {
+            let n = 12 + rng.usize(50);
+            hs.push(gen_hist2(&mut rng, &p, &codes, n));
+        }
+        (p, hs)
+    }
+
+    fn run_random(&self, ctx: &Ctx, idx: u64, out: &mut CaseOut) {
+        let (p, hs) = self.random_case(ctx, idx);
+        let text = p.render();
+        let codes = [kc("a"), kc("b"), kc("c"), kc("d")];
+        let drain = 4 * (p.h[0] as u64 + p.h[1] as u64 + p.tapwin[0] as u64 + p.tapwin[1] as u64) + 40 * (p.red as u64 + 2) + 300;
+        if ctx.verbose {
+            eprintln!("config:\n{text}");
+        }
+        for (hi, h) in hs.iter().enumerate() {
+            let Some((r, verdict)) = judge2(&text, h, &codes, drain) else {
+                out.violate("C05:config-rejected", "two-tap-hold configuration rejected", json!({"config": text, "history": "", "observed": "parse error", "expected": "accepted"}));
+                return;
+            };
+            if ctx.verbose {
+                eprintln!("history {hi}: {}", render_hist(&r.realized));
+            }
+            out.inc("schedules");
+            out.inc("schedules_random_two_tap_holds");
+            out.max("queue_len", r.max_queue);
+            out.max("waiting_depth", r.max_waiting);
+            match verdict {
+                Ok(s) => {
+                    out.count("tap_hold_presses", s.th_presses);
+                    out.count("tap_hold_presses_random", s.th_presses);
+                    out.count("buffered_key_presses", s.buffered_presses);
+                    out.max("buffered_behind_one_decision", s.max_buffered);
+                    out.count("outcome_tap", s.witnesses[0]);
+                    out.count("outcome_hold", s.witnesses[1]);
+                    out.count("outcome_timeout_action", s.witnesses[2]);
+                }
+                Err((sig, what)) => {
+                    let sig0 = sig.clone();
+                    let hm = minimise_hist(&r.realized, &mut |c| judge2(&text, c, &codes, drain).map(|(_, v)| matches!(v, Err((s, _)) if s == sig0)).unwrap_or(false));
+                    let (r2, v2) = match judge2(&text, &hm, &codes, drain) {
+                        Some(x) => x,
+                        None => return,
+                    };
+                    let what2 = match v2 {
+                        Err((_, w)) => w,
+                        Ok(_) => what,
+                    };
+                    let obs: Vec<String> = r2.outs.iter().map(|o| format!("@{}: {}{}", o.0, if o.1 { "↓" } else { "↑" }, code_name(o.2))).collect();
+                    out.violate(sig, what2, json!({"part": "random-two-tap-holds", "config": text, "history": render_hist(&r2.realized), "original_history": render_hist(&r.realized), "observed": obs,
+                        "expected": "one tap/hold/timeout witness press per tap-hold press; output presses in input-press order; everything released at the end"}));
+                    break;
+                }
+            }
+        }
+        out.tag(format!("R:{}:{}:{}:{}:{}:{}", p.v[0].name(), p.v[1].name(), p.h[0], p.h[1], p.concurrent as u8, p.red));
+        if idx % 900 == 17 {
+            out.sample = Some(json!({"part": "random-two-tap-holds", "config": text, "history": render_hist(&hs[0])}));
+        }
+    }
+}
 
 impl Check for C05Check {
     fn id(&self) -> &'static str {
         "C05"
     }
-    fn n_cases(&self, _ctx: &Ctx) -> u64 {
-        0
+    fn n_cases(&self, ctx: &Ctx) -> u64 {
+        n_exh_cases(ctx.tier) + n_random(ctx.tier)
     }
-    fn run_case(&self, _ctx: &Ctx, _idx: u64) -> CaseOut {
-        CaseOut::new()
+    fn describe(&self, ctx: &Ctx, idx: u64) -> Value {
+        if idx < n_exh_cases(ctx.tier) {
+            let p = param_sets(ctx.tier)[(idx / 9) as usize];
+            json!({"part": "exhaustive", "config": p.render(), "first_two_keys": [(idx % 9) / 3, idx % 3], "max_events": exh_n(ctx.tier, p.h), "gaps": gapvals(p.h)})
+        } else {
+            let (p, hs) = self.random_case(ctx, idx);
+            json!({"part": "random-two-tap-holds", "config": p.render(), "histories": hs.iter().map(|h| render_hist(h)).collect::<Vec<_>>()})
+        }
+    }
+    fn run_case(&self, ctx: &Ctx, idx: u64) -> CaseOut {
+        let mut out = CaseOut::new();
+        if idx < n_exh_cases(ctx.tier) {
+            self.run_exhaustive(ctx, idx, &mut out);
+        } else {
+            self.run_random(ctx, idx, &mut out);
+        }
+        out
     }
     fn rule(&self) -> String {
-        "not implemented".into()
+        "Part 1 (exhaustive, seed-independent): config (defsrc a b c), a = one tap-hold key whose tap / hold / timeout actions are the distinct witness keys x / y / z, b (the listed key of the -keys variants) and c plain. All 7 variants x H in {3,40} (thorough also 1) x tap-repress window {0, H+1} x concurrent-tap-hold {no,yes} x rapid-event-delay {5,0}; for each, EVERY physically consistent schedule of 2..=N events over {a,b,c} (N = 5 for H<=3, 4 for H=40 in quick; 6 / 5 in thorough) with every inter-event gap in {0,1,H-1,H,H+1}, keys still down released H+2 ticks after the last event. Judged: I3 per-tick equality with the tap-hold reference model; I1/I2 on the OS stream (the sequence of output presses, mapped back to their source key, equals the sequence of input presses: exactly one witness per tap-hold press, nothing overtakes a pending decision, buffered keys replayed in order, none lost/duplicated; no re-press; everything up and the layout empty after the drain); and for schedules that start 'press a, g ticks, release a' the statement's no-other-input clause directly (tap iff g < H at tick g+1, else hold/timeout action at tick H+1; appendix A deductions for concurrent-tap-hold). Part 2 (random): two tap-hold keys (a -> x/y/z, d -> 1/2/3) of random variants, H in {1,2,3,7,20,40}, random windows, with b and c plain; 4 random consistent histories of 12-61 events with gaps around both timeouts; judged by I1/I2 only (no model). distinct_nontrivial = (parameter set, key sequence) for part 1, parameter tuple for part 2.".into()
     }
     fn assumptions(&self) -> Vec<String> {
-        vec![]
+        vec![
+            "boundary conventions of appendix A: an event injected after p ticks is first seen by tick p+1; hold/timeout fires in tick p+H+1 (p+H with concurrent-tap-hold, which deducts the time spent queued); tap iff the release arrives < H ticks after the press (H-1 with concurrent-tap-hold); the model encodes these and detects changes of them".into(),
+            "tap-hold-except-keys: per the guide nothing is output until the release or another key press, so the hold action chosen by timeout appears at the release".into(),
+            "fewer than 32 events pending: exhaustive schedules have at most 6 events; the random driver lets time pass whenever the layout queue reaches 27 entries (the realized history is recorded)".into(),
+            "tap, hold and timeout actions are plain distinct keys; nested tap-holds, chords and tap-hold inside multi are not generated; in part 2 (two tap-hold keys) only the model-free invariants I1/I2 are judged".into(),
+            "one kanata instance runs all schedules of an exhaustive case, each followed by a drain until the model is quiescent; any disagreement is re-judged on a fresh instance and minimised".into(),
+        ]
+    }
+    fn floors(&self, ctx: &Ctx) -> Vec<(&'static str, u64)> {
+        vec![
+            ("schedules_exhaustive", ctx.tier.sel(1_000_000, 20_000_000)),
+            ("schedules_random_two_tap_holds", ctx.tier.sel(8_000, 150_000)),
+            ("tap_hold_presses", 1_000_000),
+            ("tap_hold_presses_random", 20_000),
+            ("outcome_tap", 100_000),
+            ("outcome_hold", 100_000),
+            ("outcome_timeout_action", 10_000),
+            ("buffered_key_presses", 100_000),
+            ("quick_repress_taps", 1_000),
+            ("solo_statement_checks", 200),
+            ("max_buffered_behind_one_decision", 3),
+        ]
+    }
+    fn exhaustive(&self, _ctx: &Ctx) -> bool {
+        true
+    }
+    fn watchdog_s(&self, _ctx: &Ctx) -> u64 {
+        180
     }
 }
